@@ -44,7 +44,7 @@ def provenance(repo, run):
     m, out, eng = rkcall.analyse(call)
     seen = set()
     for (s, node) in sorted(out.ret, key=lambda x: str(x[0])):
-        impl, adp, newton, redo, prov, failed = s
+        impl, adp, newton, redo, prov, failed, pdt = s
         if adp:
             continue
         if not impl:
